@@ -16,6 +16,8 @@ RULE = ("case = one hash string (produced by a hasher from known settings, or re
         "particular spelling) pushed through parse -> render / genhash / parsehash / inspect; distinct = distinct (format, "
         "spelling class, cost, salt size, variant, str|bytes) tuples")
 
+NUMFIELD = re.compile(r"(?<=[$=,:])(\d+)(?=[$,:]|$)")
+ARABIC_DIGITS = {ord("0") + i: 0x0660 + i for i in range(10)}
 LOWER_HEX = ("hex_md4", "hex_md5", "hex_sha1", "hex_sha256", "hex_sha512", "lmhash", "nthash", "msdcc", "msdcc2", "mysql323")
 UPPER_HEX = ("mysql41", "oracle10", "oracle11", "mssql2000", "mssql2005", "grub_pbkdf2_sha512", "cisco_type7")
 
@@ -285,6 +287,29 @@ def grammar_variants(run, name, h, bname, ref, pw, ctx, st, rng):
                 if perm != items:
                     check_string(run, name, h, head + "$" + ",".join(perm), pw, ctx, "unsorted-digest-list", None, canonical=ref)
                     run.count("origin:unsorted-digest-list")
+    # decimal fields in a spelling int() would take but the grammar does not have (sign, digit separator, blanks, non-ASCII digits,
+    # a leading zero): recorded as observations (which formats refuse, keep or normalise them) - not judged, see below
+    if hasattr(h, "from_string") and not hasattr(h, "wrapped") and bname not in H.PLAIN and ref:
+        for m in list(NUMFIELD.finditer(ref))[:3]:
+            num = m.group(1)
+            decos = [("sign", "+" + num), ("blank-before", " " + num), ("blank-after", num + " "), ("non-ascii-digits", num.translate(ARABIC_DIGITS)),
+                     ("leading-zero", "0" + num), ("underscore", num[:-3] + "_" + num[-3:] if len(num) > 3 else num[0] + "_" + num[1:] if len(num) > 1 else num + "_")]
+            for kind, d in decos:
+                s2 = ref[:m.start(1)] + d + ref[m.end(1):]
+                run.count("decorated_number_probes")
+                try:
+                    back = h.from_string(s2).to_string()
+                except (ValueError, TypeError):
+                    run.count("decorated_number_refused")
+                    continue
+                run.case((name, "decorated-number", kind), None)
+                if back != s2:
+                    # observation only: such a string is not well-formed, so the property does not speak about it (the unchanged tree
+                    # reads these fields with int() in the pbkdf2 family and normalises them); C08 judges that nothing raises
+                    run.count("decorated_number_accepted_and_normalised")
+                    run.distinct.add(f"decorated-number|{name}|{kind}|normalised")
+                else:
+                    run.count("decorated_number_kept_verbatim")
     # bcrypt: unused padding bits of the last salt character are repaired
     if bname == "bcrypt" and not hasattr(h, "wrapped") and ref[:4] in ("$2a$", "$2b$", "$2y$"):
         salt = ref[7:29]
@@ -432,6 +457,7 @@ def body(run):
     libpass_inspect(run)
     class_switches(run)
     run.require("class_switch_cases", 3)
+    run.require("decorated_number_probes", 500)
     for n in names:
         if H.usable(n) and n not in H.DISABLED:
             run.require(f"rt:{n}", 2)
